@@ -175,6 +175,30 @@ for i in range(nbase):
                         compare("C04:vector-vs-scalar", "entry %d of %s vs the flat vector call" % (j_w, t8), [f[j_w] for f in f6],
                                 [float(o[j_w]) for o in outs], scales_for(seq, rho, ws[j_w]), tol=1e-13)
 
+# ---------------------------------------------------------------- one-species cells at the clipping boundary
+# nuclides whose tabulated total cross section does not exceed 4 pi b_c^2/100 have an incoherent part of exactly zero:
+# it stays zero (and nothing turns negative or NaN) when the cell holds 3, 5 or 7 of them
+stats["clipped_cells"] = 0
+clipped = [a for a in pool.with_sld if a.neutron.total is not None and a.neutron.b_c is not None and a.neutron.nsf_table is None
+           and a.neutron.total <= 4 * math.pi * a.neutron.b_c ** 2 / 100 * (1 + 1e-12)]
+for a in rng.sample(clipped, min(len(clipped), 10 if tier == "quick" else 60)) + [x for x in pool.tab][:3]:
+    r1 = attempt(nsf.neutron_scattering, ((1, a),), density=5.0, wavelength=[1.0, 4.75])
+    for k_ in (3, 5, 7):
+        stats["clipped_cells"] += 1
+        rk = attempt(nsf.neutron_scattering, ((k_, a),), density=5.0, wavelength=[1.0, 4.75])
+        t_ = "neutron_scattering(((%d, %r),), density=5.0, wavelength=[1.0, 4.75])" % (k_, a)
+        f1_, fk_ = (flatten_result(r, True, 2) if isinstance(r, tuple) else None for r in (r1, rk))
+        if f1_ is None or fk_ is None:
+            fail("C04:count-scaling", "%s gives %r" % (t_, rk), call=t_)
+            break
+        bad = [NAMES[j] for j in range(7) for q in range(2)
+               if not (fk_[j][q] == fk_[j][q]) or (j != 0 and fk_[j][q] < 0) or abs(fk_[j][q] - f1_[j][q]) > 1e-9 * max(abs(f1_[j][q]), 1e-300)
+               + (1e-6 if j == 2 else 0) + (1e-9 * abs(f1_[3][q]) if j == 5 else 0)]   # (the incoherent part is a rounding residue here)
+        if bad:
+            fail("C04:count-scaling", "%s = %r; with one atom in the cell the outputs are %r (differs / negative / NaN in %s)"
+                 % (t_, [x for x in fk_], [x for x in f1_], ", ".join(sorted(set(bad)))), call=t_)
+            break
+
 # ---------------------------------------------------------------- the same compound spelled in several ways as a string
 stats["string_spellings"] = 0
 UNITS_ = ["CaCO3", "H2O", "NaCl", "SiO2", "Fe2O3", "D2O", "C6H6", "Gd2O3", "HO", "NH3"]
